@@ -10,8 +10,6 @@ import (
 	"io"
 	"strings"
 
-	"google.golang.org/protobuf/encoding/protojson"
-	"google.golang.org/protobuf/encoding/prototext"
 	_ "google.golang.org/protobuf/internal/testprotos/legacy"
 	"google.golang.org/protobuf/proto"
 	"google.golang.org/protobuf/reflect/protodesc"
@@ -21,6 +19,7 @@ import (
 	"google.golang.org/protobuf/types/descriptorpb"
 	"google.golang.org/protobuf/verifmc/core"
 	"google.golang.org/protobuf/verifmc/ref/descdump"
+	"google.golang.org/protobuf/verifmc/twin"
 	"google.golang.org/protobuf/verifmc/univ"
 )
 
@@ -29,133 +28,6 @@ func init() { core.Register("C46", "exploration", run) }
 var generations = []string{
 	"proto2_20160225", "proto2_20160519", "proto2_20180125", "proto2_20180430", "proto2_20180814", "proto2_20190205",
 	"proto3_20160225", "proto3_20160519", "proto3_20180125", "proto3_20180430", "proto3_20180814", "proto3_20190205",
-}
-
-type twin struct {
-	name     string
-	leg, dyn univ.Flavor
-	// noUnknown: the old Go type has no storage for unknown fields (generated proto3 code before
-	// 2018 has no XXX_unrecognized); content with unknown fields does not exist for such a type,
-	// so both sides decode with DiscardUnknown and unknown-field slots are left out.
-	noUnknown bool
-}
-
-func newTwin(name string, leg, dyn univ.Flavor) twin {
-	m := leg.MT.New()
-	m.SetUnknown([]byte{0x08, 0x07})
-	return twin{name, leg, dyn, len(m.GetUnknown()) == 0}
-}
-
-// observe renders everything the property compares for one message.
-func observe(m protoreflect.Message) (string, []byte) {
-	var sb strings.Builder
-	sb.WriteString("snap=" + univ.Snapshot(m))
-	b, err := proto.MarshalOptions{Deterministic: true, AllowPartial: true}.Marshal(m.Interface())
-	fmt.Fprintf(&sb, "\nwire=%x err=%v size=%d", b, err != nil, proto.Size(m.Interface()))
-	if len(b) != proto.Size(m.Interface()) {
-		sb.WriteString(" SIZE!=LEN")
-	}
-	fmt.Fprintf(&sb, "\ninit=%v", proto.CheckInitialized(m.Interface()) == nil)
-	j, err := protojson.MarshalOptions{AllowPartial: true}.Marshal(m.Interface())
-	fmt.Fprintf(&sb, "\njson=%s err=%v", j, err != nil)
-	j2, err := protojson.MarshalOptions{AllowPartial: true, EmitUnpopulated: true, UseProtoNames: true, UseEnumNumbers: true}.Marshal(m.Interface())
-	fmt.Fprintf(&sb, "\njson2=%s err=%v", j2, err != nil)
-	t, err := prototext.MarshalOptions{AllowPartial: true}.Marshal(m.Interface())
-	fmt.Fprintf(&sb, "\ntext=%s err=%v", t, err != nil)
-	return sb.String(), b
-}
-
-func compareBuilt(c *core.Ctx, tw twin, slots []*univ.Slot) {
-	name := univ.Names(slots)
-	c.Eval(1)
-	c.Guard(func() string { return fmt.Sprintf("type=%s case=%s", tw.name, name) }, func() {
-		ml, md := tw.leg.Build(slots), tw.dyn.Build(slots)
-		ol, bl := observe(ml)
-		od, bd := observe(md)
-		if ol != od {
-			c.Violation(fmt.Sprintf("legacy message and dynamicpb twin differ type=%s case=%s", tw.name, name), map[string]any{"legacy": ol, "dynamicpb": od})
-			return
-		}
-		// decode each other's output
-		xl, err1 := tw.leg.Unmarshal(bd, proto.UnmarshalOptions{AllowPartial: true})
-		xd, err2 := tw.dyn.Unmarshal(bl, proto.UnmarshalOptions{AllowPartial: true})
-		if err1 != nil || err2 != nil {
-			c.Violation(fmt.Sprintf("cross decoding fails type=%s case=%s", tw.name, name), fmt.Sprint(err1, " / ", err2))
-			return
-		}
-		if univ.SnapshotNorm(xl) != univ.SnapshotNorm(ml) || univ.SnapshotNorm(xd) != univ.SnapshotNorm(md) || !proto.Equal(xl.Interface(), ml.Interface()) {
-			c.Violation(fmt.Sprintf("content changes when legacy and dynamicpb decode each other's output type=%s case=%s", tw.name, name), map[string]any{"legacy<-dyn": univ.Snapshot(xl), "dyn<-legacy": univ.Snapshot(xd), "orig": univ.Snapshot(ml)})
-		}
-		// clone / merge through the legacy wrapper
-		cl := proto.Clone(ml.Interface())
-		if univ.Snapshot(cl.ProtoReflect()) != univ.Snapshot(ml) {
-			c.Violation(fmt.Sprintf("Clone of legacy message differs type=%s case=%s", tw.name, name), nil)
-		}
-		// JSON / text parse back into the legacy type
-		j, err := protojson.MarshalOptions{AllowPartial: true}.Marshal(md.Interface())
-		if err == nil {
-			back := tw.leg.MT.New()
-			if err := (protojson.UnmarshalOptions{AllowPartial: true, Resolver: protoregistry.GlobalTypes}).Unmarshal(j, back.Interface()); err != nil {
-				c.Violation(fmt.Sprintf("legacy type rejects the JSON of its twin type=%s case=%s", tw.name, name), err.Error())
-			} else if univ.SnapshotNorm(back) != univ.SnapshotNorm(dropUnknown(ml)) {
-				c.Violation(fmt.Sprintf("legacy type parses JSON of its twin to different content type=%s case=%s", tw.name, name), map[string]any{"json": string(j), "got": univ.Snapshot(back), "want": univ.Snapshot(ml)})
-			}
-		}
-	})
-}
-
-func dropUnknown(m protoreflect.Message) protoreflect.Message {
-	c := proto.Clone(m.Interface()).ProtoReflect()
-	var walk func(m protoreflect.Message)
-	walk = func(m protoreflect.Message) {
-		m.SetUnknown(nil)
-		m.Range(func(fd protoreflect.FieldDescriptor, v protoreflect.Value) bool {
-			switch {
-			case fd.IsList() && fd.Message() != nil:
-				for i := 0; i < v.List().Len(); i++ {
-					walk(v.List().Get(i).Message())
-				}
-			case fd.IsMap() && fd.MapValue().Message() != nil:
-				v.Map().Range(func(_ protoreflect.MapKey, mv protoreflect.Value) bool { walk(mv.Message()); return true })
-			case fd.Message() != nil && !fd.IsMap() && !fd.IsList():
-				walk(v.Message())
-			}
-			return true
-		})
-	}
-	walk(c)
-	return c
-}
-
-func compareWire(c *core.Ctx, tw twin, in []byte, name string) {
-	c.Eval(1)
-	c.Guard(func() string { return fmt.Sprintf("type=%s wire=%s", tw.name, name) }, func() {
-		for _, partial := range []bool{true, false} {
-			ml, el := tw.leg.Unmarshal(in, proto.UnmarshalOptions{AllowPartial: partial, DiscardUnknown: tw.noUnknown})
-			md, ed := tw.dyn.Unmarshal(in, proto.UnmarshalOptions{AllowPartial: partial, DiscardUnknown: tw.noUnknown})
-			if (el == nil) != (ed == nil) {
-				c.Violation(fmt.Sprintf("Unmarshal verdict differs (AllowPartial=%v) type=%s wire=%s", partial, tw.name, name), fmt.Sprint(el, " / ", ed))
-				return
-			}
-			if el != nil {
-				continue
-			}
-			ol, _ := observeNorm(ml)
-			od, _ := observeNorm(md)
-			if ol != od {
-				c.Violation(fmt.Sprintf("decoded legacy message and dynamicpb twin differ type=%s wire=%s", tw.name, name), map[string]any{"legacy": ol, "dynamicpb": od})
-				return
-			}
-		}
-	})
-}
-
-// observeNorm is observe with unknown-field tags normalised (the table-driven
-// and reflective decoders may keep non-minimal tag varints differently).
-func observeNorm(m protoreflect.Message) (string, []byte) {
-	s, b := observe(m)
-	i := strings.Index(s, "\nwire=")
-	return "snap=" + univ.SnapshotNorm(m) + s[i:], b
 }
 
 // deepMaps builds content that reaches map fields through nested legacy
@@ -273,13 +145,13 @@ func fillMaps(m protoreflect.Message, n int) int {
 	return filled
 }
 
-func checkDeep(c *core.Ctx, tw twin) int {
-	paths := deepMaps(tw.leg.MT.Descriptor())
+func checkDeep(c *core.Ctx, tw twin.Twin) int {
+	paths := deepMaps(tw.Leg.MT.Descriptor())
 	paths = append(paths, nil)
 	for _, p := range paths {
 		p := p
 		c.Eval(1)
-		c.Guard(func() string { return fmt.Sprintf("type=%s deep maps at %v", tw.name, p) }, func() {
+		c.Guard(func() string { return fmt.Sprintf("type=%s deep maps at %v", tw.Name, p) }, func() {
 			build := func(f univ.Flavor) protoreflect.Message {
 				m := f.MT.New()
 				cur := m
@@ -291,11 +163,11 @@ func checkDeep(c *core.Ctx, tw twin) int {
 				}
 				return m
 			}
-			ml, md := build(tw.leg), build(tw.dyn)
-			ol, _ := observe(ml)
-			od, _ := observe(md)
+			ml, md := build(tw.Leg), build(tw.Dyn)
+			ol, _ := twin.Observe(ml)
+			od, _ := twin.Observe(md)
 			if ol != od {
-				c.Violation(fmt.Sprintf("legacy message and dynamicpb twin differ type=%s deep maps at %v", tw.name, p), map[string]any{"legacy": ol, "dynamicpb": od})
+				c.Violation(fmt.Sprintf("legacy message and dynamicpb twin differ type=%s deep maps at %v", tw.Name, p), map[string]any{"legacy": ol, "dynamicpb": od})
 			}
 		})
 	}
@@ -420,28 +292,28 @@ func run(c *core.Ctx) {
 			break
 		}
 		name := "google.golang.org." + g + ".Message"
-		tw := newTwin(name, univ.Gen(name), univ.Dyn(name))
-		md := tw.leg.MT.Descriptor()
+		tw := twin.New("legacy message", name, univ.Gen(name), univ.Dyn(name))
+		md := tw.Leg.MT.Descriptor()
 		k := 2
 		if c.Quick() && !(gi == 0 || gi == 6) {
 			k = 1
 		}
-		alpha := univ.Alphabet(md, 1, univ.Opt{Thin: true, NoUnknown: tw.noUnknown})
+		alpha := univ.Alphabet(md, 1, univ.Opt{Thin: true, NoUnknown: tw.NoUnknown})
 		n := univ.TupleCount(len(alpha), k)
 		univ.ForTuples(c, len(alpha), k, func(idx []int) {
-			compareBuilt(c, tw, univ.PickSlots(alpha, idx, nil))
+			twin.CompareBuilt(c, tw, univ.PickSlots(alpha, idx, nil))
 		})
 		c.DistinctN(int64(n))
 		recs := univ.WireAlphabet(md, univ.WireOpt{Small: true, Depth: 1})
 		nw := univ.TupleCount(len(recs), k)
 		univ.ForTuples(c, len(recs), k, func(idx []int) {
 			in, nm := univ.Concat(recs, idx)
-			compareWire(c, tw, in, nm)
+			twin.CompareWire(c, tw, in, nm)
 		})
 		c.DistinctN(int64(nw))
 		nd := checkDeep(c, tw)
 		c.DistinctN(int64(nd))
-		planOut = append(planOut, map[string]any{"type": name, "k": k, "go_type_keeps_unknown_fields": !tw.noUnknown, "slot_alphabet": len(alpha), "messages": n, "wire_alphabet": len(recs), "wire_sequences": nw, "deep_map_paths": nd})
+		planOut = append(planOut, map[string]any{"type": name, "k": k, "go_type_keeps_unknown_fields": !tw.NoUnknown, "slot_alphabet": len(alpha), "messages": n, "wire_alphabet": len(recs), "wire_sequences": nw, "deep_map_paths": nd})
 	}
 	c.Bounds["plans"] = planOut
 	aberrant(c)
